@@ -87,11 +87,11 @@ func (a Lin) String() string {
 
 // linCtx holds the atom naming for one function.
 type linCtx struct {
-	p     *Prog
+	p *Prog
 	// wrapOK: treat unsigned +,-,* as exact (layout comparisons, where both
 	// sides wrap alike); the bounds engine leaves it false.
 	wrapOK bool
-	names map[ssa.Value]string
+	names  map[ssa.Value]string
 	// rep maps an atom name to one SSA value bearing it.
 	rep map[string]ssa.Value
 }
